@@ -224,8 +224,19 @@ def sig(step):
     return t
 
 
+ARITH = {"add", "sub", "mul", "div", "truediv", "floordiv", "mod", "pow", "radd", "rsub", "rmul", "rdiv", "rtruediv", "rfloordiv", "rmod", "rpow"}
+COMPARE = {"lt", "le", "gt", "ge", "eq", "ne"}
+
+
 def chain_sig(step):
-    """name of a chained call such as x.groupby(..).a.agg(..) / x.rolling(..).sum(): 'groupby.col.agg'"""
+    """name of a chained call such as x.groupby(..).a.agg(..) / x.rolling(..).sum(): 'groupby.col.agg'.
+    All arithmetic operators / methods are named 'arith', all comparisons 'compare'."""
+    if step[0] == "bin":
+        return "compare" if step[1] in ("<", "<=", ">", ">=", "==", "!=") else ("logical" if step[1] in "&|^" else "arith")
+    if step[0] == "call" and step[2] in ARITH:
+        return "arith"
+    if step[0] == "call" and step[2] in COMPARE:
+        return "compare"
     names = []
     e = step
     while isinstance(e, tuple) and e and e[0] in ("call", "col", "cols", "attr", "acc", "udf", "daskonly", "head", "item", "un", "bin") and e != X:
@@ -416,8 +427,8 @@ def frame_steps(p, level="full"):
     # so a UDF that reveals the scalar type ('tostr') sees different values for different partitionings: excluded for nullable columns)
     nullable = any(k == "nullable" for k in kinds.values())
     out += [
-        ("udf", X, "apply", "rowsum", "int64", (("axis", 1),)) if ("a" in cols and "g" in cols) else call(X, "isna"),
-        ("udf", X, "apply", "rowstr", "object", (("axis", 1),)) if ("a" in cols and "g" in cols) else call(X, "notnull"),
+        ("udf", X, "apply", "rowsum", "auto", (("axis", 1),)) if ("a" in cols and "g" in cols) else call(X, "isna"),
+        ("udf", X, "apply", "rowstr", "auto", (("axis", 1),)) if ("a" in cols and "g" in cols) else call(X, "notnull"),
         ("udf", X, "map", "tostr" if not nullable else "ident", "auto", ()),
         ("udf", X, "map", "ident", "auto", ()),
     ]
@@ -454,7 +465,7 @@ def series_steps(p, level="full"):
         call(X, "rename", "r"), call(X, "to_frame"), call(X, "to_frame", "q"), ("item", X, call(X, "notnull")), call(X, "isna"), call(X, "notnull"),
         B("==", X, L(v0)), B("!=", X, X), call(X, "isin", ("l", (v0, 4, "yy"))), call(X, "where", E(B("==", X, L(v0)))),
         call(X, "mask", E(B("==", X, L(v0)))), ("item", X, B("!=", X, L(v0))), ("udf", X, "map", "ident", "auto", ()),
-        ("udf", X, "apply", "tostr" if k != "nullable" else "ident", "object" if k != "nullable" else "auto", ()), call(X, "astype", "object"), call(X, "astype", "str"),
+        ("udf", X, "apply", "tostr" if k != "nullable" else "ident", "auto", ()), call(X, "astype", "object"), call(X, "astype", "str"),
     ]
     core = [call(X, "rename", "r"), call(X, "to_frame"), ("item", X, B("!=", X, L(v0)))]
     out = []
